@@ -11,7 +11,7 @@ from common import quiet, zlit
 
 NEEDED = ['And2_propagate', 'Or2_propagate', 'Not_propagate', 'Buf_propagate', 'ZeroExtend_propagate', 'Mul_propagate', 'Sub_propagate',
           'AddCarryIn_propagate', 'ShiftLeftConstant_propagate', 'ShiftRightConstant_propagate', 'Mux2_propagate', 'Range_propagate',
-          'Bit_propagate', 'Constant_propagate', 'SignExtend_propagate', 'ConcatenateMSBF_propagate', 'ConcatenateLSBF_propagate', 'Repeat_propagate', 'Div_propagate', 'Mod_propagate', 'SignedMul_propagate', 'Reg_clock',
+          'Bit_propagate', 'Constant_propagate', 'SignExtend_propagate', 'ConcatenateMSBF_propagate', 'ConcatenateLSBF_propagate', 'Repeat_propagate', 'Div_propagate', 'Mod_propagate', 'SignedMul_propagate', 'Reg_clock', 'SynchronousMemory_clock', 'DualPortSynchronousMemory_clock', 'AsynchronousMemory_propagate',
           'IntegerHelper_c2_to_signed']
 
 RESERVED_PREFIX = 'reserved_'
@@ -94,6 +94,23 @@ def expected_terms(top):
                 r = 'Some %s' % N(top, obj, ch.r) if ch.r is not None else 'None'
                 out.append((lab, 'has_posedge_proc f (body_reg_proc %s %s (%s) (%s) %s) && has_assign f (whole %s, rid %s) && net_init_is f "%srq" %s'
                             % (rq, N(top, obj, ch.d), e, r, zlit(ch.reset_value), N(top, obj, ch.q), rq, pre, zlit(ch.reset_value))))
+            elif cls in ('SynchronousMemory', 'DualPortSynchronousMemory', 'AsynchronousMemory'):
+                # hand-written verilogBody(): the elaborated text must be the body Properties/C01Mem.v talks about (Model/C01Mem.v)
+                pre = inst_path(top, ch)
+                ra0 = ch.read_address if cls != 'DualPortSynchronousMemory' else ch.read_address_a
+                rd0 = ch.readdata if cls != 'DualPortSynchronousMemory' else ch.readdata_a
+                aw, w = ra0.getWidth(), rd0.getWidth()
+                mem = '(fst (N f "%smem[]" %d)) %d %d%%nat' % (pre, w, w, 1 << aw)
+                loc = lambda name: '(N f "%s%s" %d)' % (pre, name, w)
+                if cls == 'SynchronousMemory':
+                    t = 'match_syncmem f %s %s %s %s %s %s %s' % (mem, loc('rreaddata'), n(ch.read_address), n(ch.write_address), n(ch.write), n(ch.writedata), n(ch.readdata))
+                elif cls == 'AsynchronousMemory':
+                    t = 'match_asyncmem f %s %s %s %s %s %s' % (mem, n(ch.readdata), n(ch.read_address), n(ch.write_address), n(ch.write), n(ch.writedata))
+                else:
+                    port = lambda x: '%s %s %s %s %s %s' % (loc('rreaddata_' + x), n(getattr(ch, 'read_address_' + x)), n(getattr(ch, 'write_address_' + x)),
+                                                            n(getattr(ch, 'write_' + x)), n(getattr(ch, 'writedata_' + x)), n(getattr(ch, 'readdata_' + x)))
+                    t = 'match_dualmem f %s %s %s' % (mem, port('a'), port('b'))
+                out.append((lab, t))
             else:
                 walk(ch)
     walk(top)
@@ -113,7 +130,7 @@ def run_batch(ctx, tag, batch):
     # (b) execute the text against the simulator trace
     res = vlog.compare(tag + '_sim', [(b['text'], b['top'], b['steps'], b['trace']) for b in batch])
     # (a) syntactic match of every inlined primitive / Reg against the emitter models
-    items, body = [], [vlog.PRELUDE, 'From V Require Import Model.Inline.', MATCH_DEFS]
+    items, body = [], [vlog.PRELUDE, 'From V Require Import Model.Inline Model.C01Mem.', MATCH_DEFS]
     exp = {}
     for i, b in enumerate(batch):
         b['sim'] = res[i]
@@ -219,7 +236,7 @@ def run(ctx):
     ctx.cov['rule'] = ('program = one library block (random legal widths/parameters) or one random netlist wrapped in a top module, emitted by the real '
                        'generator as a hierarchy; distinct by (label, port widths, emitted text hash); non-trivial = has at least one output that changes over the stimulus')
     missing = ctx.regen(NEEDED)
-    r = ctx.prove(['Properties/C01.v', 'Properties/C01Compose.v'])
+    r = ctx.prove(['Properties/C01.v', 'Properties/C01Compose.v', 'Properties/C01Mem.v'])
     rng = random.Random(ctx.seed)
     known_witnesses(ctx)
     cat = blocks.catalogue(rng, ctx.tier) + blocks.pair_catalogue(random.Random(ctx.seed * 31 + 77), ctx.tier)     # + two instances of one class per hierarchy (shared modules)
